@@ -22,6 +22,7 @@ type classifyOut struct {
 	LDOK   bool   `json:"ldOK"`
 	Nodes  int    `json:"nodes"`
 	Class  string `json:"class"` // notJson | ldReject | okNoNodes | ok
+	Panic  bool   `json:"panic"` // json-gold itself panicked (still "JSON-LD processing rejects it")
 }
 
 func classifyData(text string) classifyOut {
@@ -38,6 +39,7 @@ func classifyData(text string) classifyOut {
 		defer func() {
 			if r := recover(); r != nil {
 				o.LDOK = false
+				o.Panic = true
 			}
 		}()
 		proc := ld.NewJsonLdProcessor()
